@@ -11,6 +11,8 @@ IMG_CONFIGS = [
     ("ext3", ["-t", "ext3", "-b", "1024", "-g", "2048", "-N", "512"], "8M"),
     ("ext2_noflex", ["-t", "ext2", "-b", "2048", "-O", "^resize_inode", "-N", "384"], "8M"),
     ("ext4_2k_64", ["-t", "ext4", "-b", "2048", "-g", "4096", "-O", "64bit,metadata_csum,^flex_bg", "-I", "512", "-N", "512"], "12M"),
+    # meta_bg with three descriptor blocks (48 groups, 16 descriptors per block)
+    ("ext4_metabg48", ["-t", "ext4", "-b", "1024", "-g", "256", "-O", "meta_bg,^resize_inode", "-I", "256", "-N", "768"], "12M"),
 ]
 
 
@@ -139,9 +141,9 @@ def directories(fs):
     return [i for i in fs.in_use_inodes() if (i == 2 or i >= fs.first_ino) and (fs.inode(i)["mode"] & 0xF000) == 0x4000]
 
 
-def op_bitmap_block(fs, d, r, keep_csum):
+def op_bitmap_block(fs, d, r, keep_csum, which=None):
     """flip a block-bitmap bit: mark a used block free or a free block used"""
-    g = r.randrange(fs.groups_count)
+    g = r.randrange(fs.groups_count) if which is None else (fs.groups_count - 1 if which == "last" else 0)
     gd = fs.groups[g]
     if gd["flags"] & BG_BLOCK_UNINIT and fs.has_group_csum():
         g = 0
@@ -155,8 +157,8 @@ def op_bitmap_block(fs, d, r, keep_csum):
     return "block bitmap of group %d, bit %d flipped" % (g, bit)
 
 
-def op_bitmap_inode(fs, d, r, keep_csum):
-    g = r.randrange(fs.groups_count)
+def op_bitmap_inode(fs, d, r, keep_csum, which=None):
+    g = r.randrange(fs.groups_count) if which is None else (fs.groups_count - 1 if which == "last" else 0)
     gd = fs.groups[g]
     if gd["flags"] & BG_INODE_UNINIT and fs.has_group_csum():
         g, gd = 0, fs.groups[0]
@@ -170,8 +172,24 @@ def op_bitmap_inode(fs, d, r, keep_csum):
     return "inode bitmap of group %d, bit %d flipped" % (g, bit)
 
 
-def op_gd_counts(fs, d, r, keep_csum):
-    g = r.randrange(fs.groups_count)
+def op_bitmap_csum(fs, d, r, keep_csum, which=None):
+    """the stored checksum of a bitmap is wrong while the bitmap and the descriptor's own checksum are right"""
+    if not fs.has_csum:
+        return "not applicable"
+    which = which or r.choice(["ib", "bb"])
+    flag = BG_INODE_UNINIT if which == "ib" else BG_BLOCK_UNINIT
+    gs = [g for g in range(fs.groups_count) if not fs.groups[g]["flags"] & flag]
+    if not gs:
+        return "not applicable"
+    g = r.choice(gs)
+    a = gd_loc(fs, g) + (0x1A if which == "ib" else 0x18)
+    struct.pack_into("<H", d, a, struct.unpack_from("<H", d, a)[0] ^ r.choice([1, 0x8000, 0xFFFF, 0x0100]))
+    fix_gd_csum(fs, d, g)
+    return "group %d descriptor: %s bitmap checksum field changed, descriptor checksum valid" % (g, "inode" if which == "ib" else "block")
+
+
+def op_gd_counts(fs, d, r, keep_csum, which=None):
+    g = r.randrange(fs.groups_count) if which is None else (fs.groups_count - 1 if which == "last" else 0)
     a = gd_loc(fs, g)
     which = r.choice([(12, "free blocks"), (14, "free inodes"), (16, "used dirs")])
     v = struct.unpack_from("<H", d, a + which[0])[0]
@@ -427,10 +445,82 @@ def op_append_block(fs, d, r, keep_csum, which=None):
     return "not applicable"
 
 
+XATTR_VARIANTS = ["size_wrap", "size_wrap_lo", "size_max", "size_block", "offs_end", "offs_header", "name_len", "inum", "refcount0", "no_terminator"]
+
+
+def fix_xattr_block_csum(fs, d, blk):
+    if not fs.has_csum:
+        return
+    a = blk * fs.bs
+    raw = bytearray(d[a:a + fs.bs])
+    raw[16:20] = b"\0\0\0\0"
+    c = crc32c(crc32c(_seed(fs), struct.pack("<Q", blk)), bytes(raw))
+    struct.pack_into("<I", d, a + 16, c)
+
+
+def op_xattr_block(fs, d, r, keep_csum, which=None):
+    """an entry of an external attribute block with a size/offset/name length at or beyond what 32-bit sums can take"""
+    owners = [ino for ino in fs.in_use_inodes() if (ino == 2 or ino >= fs.first_ino) and fs.inode(ino)["file_acl"]]
+    if not owners:
+        return "not applicable"
+    ino = r.choice(owners)
+    blk = fs.inode(ino)["file_acl"]
+    a = blk * fs.bs
+    ents = []
+    o = 32
+    while o + 16 <= fs.bs and struct.unpack_from("<I", d, a + o)[0]:
+        ents.append(o)
+        o += (16 + d[a + o] + 3) & ~3
+    if not ents:
+        return "not applicable"
+    e = a + r.choice(ents)
+    which = which or r.choice(XATTR_VARIANTS)
+    bs = fs.bs
+    if which == "size_wrap":
+        struct.pack_into("<H", d, e + 2, bs - 4)
+        struct.pack_into("<I", d, e + 8, (1 << 32) - bs // 2)
+    elif which == "size_wrap_lo":
+        struct.pack_into("<I", d, e + 8, (1 << 32) - struct.unpack_from("<H", d, e + 2)[0] + r.choice([0, 1, 4, bs // 2]))
+    elif which == "size_max":
+        struct.pack_into("<I", d, e + 8, r.choice([0xFFFFFFFF, 0x80000000, 0x7FFFFFFF, 0xFFFFFFFC]))
+    elif which == "size_block":
+        struct.pack_into("<I", d, e + 8, r.choice([bs, bs + 1, bs - struct.unpack_from("<H", d, e + 2)[0] + 1, 65536]))
+    elif which == "offs_end":
+        struct.pack_into("<H", d, e + 2, r.choice([bs - 1, bs, bs + 4, 0xFFFF, 0xFFFC]))
+    elif which == "offs_header":
+        struct.pack_into("<H", d, e + 2, r.choice([0, 4, 16, 32, 36]))
+    elif which == "name_len":
+        d[e] = r.choice([0, 255, 254, d[e] + 4, d[e] + 64])
+    elif which == "inum":
+        struct.pack_into("<I", d, e + 4, r.choice([1, 2, 8, ino, fs.inodes_count, fs.inodes_count + 1, 0xFFFFFFFF]))
+    elif which == "refcount0":
+        struct.pack_into("<I", d, a + 4, r.choice([0, 0xFFFFFFFF, 1025]))
+    elif which == "no_terminator":
+        # fill the rest of the entry table with non-zero words so that no terminator follows
+        for x in range(o, bs - 3, 4):
+            if struct.unpack_from("<I", d, a + x)[0] == 0:
+                struct.pack_into("<I", d, a + x, 0x01010101)
+    if keep_csum:
+        fix_xattr_block_csum(fs, d, blk)
+    return "inode %d: attribute block %d, entry at %d: %s" % (ino, blk, e - a, which)
+
+
+# two-field corruptions: the repair of one must not hide or undo the other
+PAIRS = [
+    [(op_bitmap_csum, "ib"), (op_bitmap_block, None)],
+    [(op_bitmap_csum, "bb"), (op_bitmap_inode, None)],
+    [(op_bitmap_csum, "ib"), (op_gd_counts, None)],
+    [(op_bitmap_csum, "ib"), (op_bitmap_block, "last")],
+    [(op_gd_counts, "last")],
+    [(op_bitmap_block, "last")],
+    [(op_bitmap_inode, "last"), (op_gd_counts, "last")],
+    [(op_bitmap_csum, "bb"), (op_bitmap_csum, "ib")],
+]
+
 DIRECTED = [(op_append_block, "end"), (op_append_block, "end+1"), (op_block_pointer, "end"), (op_block_pointer, "end+1"), (op_extent_edge, "end"), (op_extent_edge, "end+1"),
             (op_extra_isize, "hi"), (op_block_pointer, "first-1"), (op_block_pointer, "itable"), (op_extra_isize, "ok")]
 
-OPERATORS = [op_append_block, op_block_pointer, op_extent_edge, op_extra_isize, op_bitmap_block, op_bitmap_inode, op_gd_counts, op_gd_location, op_inode_field, op_inode_field,
+OPERATORS = [op_xattr_block, op_xattr_block, op_append_block, op_block_pointer, op_extent_edge, op_extra_isize, op_bitmap_block, op_bitmap_inode, op_gd_counts, op_gd_location, op_inode_field, op_inode_field,
              op_extent, op_extent, op_dirent, op_dirent, op_csum_only, op_noise]
 
 
@@ -440,11 +530,12 @@ def corrupt(base_path, out_path, r, nops=None, operators=None, directed=None):
     d = bytearray(fs.d)
     desc = []
     if directed is not None:
-        op, which = DIRECTED[directed % len(DIRECTED)]
-        try:
-            desc.append(op(fs, d, r, True, which) + (" (checksums re-computed)" if fs.has_csum and op is not op_extra_isize else ""))
-        except (FormatError, struct.error, IndexError, ValueError) as ex:
-            desc.append("operator %s not applicable: %r" % (op.__name__, ex))
+        todo = directed if isinstance(directed, list) else [directed if isinstance(directed, tuple) else DIRECTED[directed % len(DIRECTED)]]
+        for op, which in todo:
+            try:
+                desc.append(op(fs, d, r, True, which) + (" (checksums re-computed)" if fs.has_csum and op is not op_extra_isize else ""))
+            except (FormatError, struct.error, IndexError, ValueError) as ex:
+                desc.append("operator %s not applicable: %r" % (op.__name__, ex))
         with open(out_path, "wb") as f:
             f.write(d)
         return desc
